@@ -13,7 +13,7 @@ git checkout -q -- src
 "$@" > $d/demo_without.log 2>&1; echo "demo without change: exit $?" >> $out
 git apply "$patch"
 cargo nextest run --workspace --no-fail-fast --test-threads 8 --offline > $d/suite.log 2>&1
-grep "Summary" $d/suite.log >> $out
+grep -E "^ +Summary \[" $d/suite.log >> $out
 grep "FAIL \[" $d/suite.log | sed 's/.*super_speedy_syslog_searcher //' | sort -u > $d/suite_fails.txt
 python3 - "$d" >> $out <<'PY'
 import json, sys
